@@ -1027,6 +1027,55 @@ def readPart (pbms : List (List PBlock)) (tids : List Nat) : List PBlock × Bool
   let (out, s) := PIter.run fuel s1 []
   (out, s.panicked)
 
+/-! ## 5c. staging: per-trace bounds of the blocks a merge stages (`traceEvaluationStager.stage`) -/
+
+/-- timestamp metadata of one staged physical block. -/
+structure SBlock where
+  tid : Nat
+  min : Int
+  max : Int
+  known : Bool
+
+/-- `stagedTraceGroup` (the fields the maturity test and the sampler see). `count` = `end - start`. -/
+structure SGroup where
+  tid : Nat
+  minTS : Int := 0
+  maxTS : Int := 0
+  count : Nat := 0
+  valid : Bool := true
+
+/-- the bounds update of `stage` for one more block of the group. -/
+def SGroup.add (g : SGroup) (b : SBlock) : SGroup :=
+  let g := { g with count := g.count + 1 }
+  if !b.known || decide (b.min > b.max) then { g with valid := false }
+  else if g.count = 1 then { g with minTS := b.min, maxTS := b.max }
+  else { g with minTS := if b.min < g.minTS then b.min else g.minTS,
+                maxTS := if b.max > g.maxTS then b.max else g.maxTS }
+
+/-- stager state: groups (newest first), invalid-order and invalid-metadata flags. -/
+structure StagerState where
+  groups : List SGroup := []
+  invalidOrder : Bool := false
+  invalidMetadata : Bool := false
+
+/-- `traceEvaluationStager.stage` (grouping and bounds; byte accounting is not modelled). -/
+def StagerState.stage (s : StagerState) (b : SBlock) : StagerState :=
+  match s.groups with
+  | g :: gs =>
+    if b.tid = g.tid then
+      let g' := g.add b
+      { s with groups := g' :: gs, invalidMetadata := s.invalidMetadata || !g'.valid }
+    else
+      let g' := ({ tid := b.tid } : SGroup).add b
+      { groups := g' :: g :: gs, invalidOrder := s.invalidOrder || decide (b.tid ≤ g.tid),
+        invalidMetadata := s.invalidMetadata || !g'.valid }
+  | [] =>
+    let g' := ({ tid := b.tid } : SGroup).add b
+    { s with groups := [g'], invalidMetadata := s.invalidMetadata || !g'.valid }
+
+/-- `stagedTraceGroupEligible` with `filterImmature`: the whole trace is older than the frontier. -/
+def SGroup.eligible (g : SGroup) (frontier : Int) : Bool := decide (g.maxTS ≤ frontier)
+
 /-! ## 6. observations used by the property statements -/
 
 /-- every span physically stored for `tid` (what a complete query by trace id must return). -/
